@@ -45,10 +45,11 @@ type scenario struct {
 	ForcedSlashings       bool
 	EjectionHigh          bool // EJECTION_BALANCE just below the maximum: ejections (batched exit queue) become reachable
 	LatePattern           []bool // per epoch (cycled): attestations of that epoch are only included during the next epoch
+	MergeDelay            uint64 // the first MergeDelay slots of bellatrix carry no execution payload (merge transition block later)
 }
 
 func (s scenario) String() string {
-	return fmt.Sprintf("%s/%s vals=%d epochs=%d forks=%v step=%v pblock=%.2f part=%v ops=%.2f dep=%.2f leak=%v ejectHigh=%v late=%v", s.Family, s.Preset, s.Validators, s.Epochs, s.ForkEpochs, s.StepEvery, s.PBlock, s.Participation, s.POps, s.PDeposits, s.LeakEpochs, s.EjectionHigh, s.LatePattern)
+	return fmt.Sprintf("%s/%s vals=%d epochs=%d forks=%v step=%v pblock=%.2f part=%v ops=%.2f dep=%.2f leak=%v ejectHigh=%v late=%v mergeDelay=%d", s.Family, s.Preset, s.Validators, s.Epochs, s.ForkEpochs, s.StepEvery, s.PBlock, s.Participation, s.POps, s.PDeposits, s.LeakEpochs, s.EjectionHigh, s.LatePattern, s.MergeDelay)
 }
 
 const ff = ^uint64(0)
@@ -145,7 +146,7 @@ func drawScenario(rng *rand.Rand, family string, quick bool, forceLate ...bool) 
 		sc.ForkEpochs = [4]uint64{1, 2, 3, 3}
 	}
 	sc.StepEvery = rng.IntN(2) == 0
-	forceDeneb, forceBellatrix := false, false
+	forceDeneb, forceBellatrix, forceDenebAt3 := false, false, false
 	switch family {
 	case "steady":
 		sc.Epochs = 7 + rng.IntN(4)
@@ -200,7 +201,7 @@ func drawScenario(rng *rand.Rand, family string, quick bool, forceLate ...bool) 
 		sc.Epochs = 12
 		forceBellatrix = true // proportional slashing multiplier 3: a third of the stake slashed takes whole balances
 	case "ejectall":
-		sc.Epochs = 4
+		sc.Epochs = 10 // the ejected validators exit from epoch 6 on and stay slashable until they are withdrawable
 		sc.POps = 1
 		sc.ForcedSlashings = true
 		sc.ExtraBalance = false
@@ -235,6 +236,9 @@ func drawScenario(rng *rand.Rand, family string, quick bool, forceLate ...bool) 
 		sc.PBlock = 0.97
 		sc.POps = 0.05
 		sc.Epochs = 12 + rng.IntN(6)
+		if rng.IntN(2) == 0 {
+			forceDenebAt3 = true
+		}
 	case "mainnet":
 		sc.Preset = "mainnet"
 		sc.Validators = 128 + rng.IntN(64)
@@ -254,6 +258,10 @@ func drawScenario(rng *rand.Rand, family string, quick bool, forceLate ...bool) 
 		lateForks = false
 		sc.ForkEpochs = [4]uint64{1, 1, 1, 1}
 	}
+	if forceDenebAt3 {
+		lateForks = false
+		sc.ForkEpochs = [4]uint64{1, 2, 3, 3}
+	}
 	if forceBellatrix {
 		lateForks = false
 		sc.ForkEpochs = [4]uint64{1, 2, uint64(6 + rng.IntN(3)), uint64(9 + rng.IntN(3))}
@@ -270,6 +278,10 @@ func drawScenario(rng *rand.Rand, family string, quick bool, forceLate ...bool) 
 		if uint64(sc.Epochs) < sc.ForkEpochs[3]+2 {
 			sc.Epochs = int(sc.ForkEpochs[3]) + 2
 		}
+	}
+	if b, c := sc.ForkEpochs[1], sc.ForkEpochs[2]; b != ff && c > b && rng.IntN(2) == 0 {
+		// the merge transition block comes some slots after the bellatrix upgrade (always before capella)
+		sc.MergeDelay = 1 + uint64(rng.IntN(6))
 	}
 	return sc
 }
@@ -299,6 +311,9 @@ func runChain(b *fw.B, sc scenario, hooks chainHooks, report func(m *sim.Mismatc
 	if err != nil {
 		report(&sim.Mismatch{Kind: "genesis", What: err.Error()}, nil)
 		return false
+	}
+	if sc.MergeDelay > 0 {
+		c.MergeAtSlot = sc.ForkEpochs[1]*uint64(spec.SLOTS_PER_EPOCH) + sc.MergeDelay
 	}
 	refspec.OnBalanceSaturated = func() { b.Inc("refspec_decrease_balance_clamped_at_zero") }
 	c.Sp.Observe = func(ev string) {
@@ -337,6 +352,11 @@ func runChain(b *fw.B, sc scenario, hooks chainHooks, report func(m *sim.Mismatc
 		if len(sc.LatePattern) > 0 {
 			plan.MaxAttSlotsBack = spe
 			plan.WithholdCurrentEpoch = sc.LatePattern[int(epoch)%len(sc.LatePattern)]
+			if epoch >= sc.ForkEpochs[3] && epoch > 0 && sc.LatePattern[int(epoch-1)%len(sc.LatePattern)] && slot%spe < spe/2 {
+				// deneb: the first half of the epoch after a withheld one includes only votes older than a whole epoch
+				// (EIP-7045: still includable, still earning the target flag)
+				plan.MinAttDelay, plan.MaxAttSlotsBack = spe+1, 2*spe-1
+			}
 		}
 		if rng.Float64() < sc.POps {
 			if rng.IntN(4) == 0 {
